@@ -67,6 +67,29 @@ Qed.
 Lemma is_zero_bytes_zeros : forall k, is_zero_bytes (zeros k) = true.
 Proof. induction k; simpl; [reflexivity|assumption]. Qed.
 
+(* ------------------------------------------------------------------ folding halves the lengths *)
+Lemma pairs_length : forall {A} m (l : list A), length l = (2 * m)%nat -> length (pairs l) = m.
+Proof.
+  intros A. induction m; intros l H.
+  - destruct l; [reflexivity|discriminate].
+  - destruct l as [|a [|b r]]; simpl in H; try lia.
+    unfold pairs. cbn [evens odds combine length]. f_equal. apply IHm. lia.
+Qed.
+
+Lemma fold_pairs_length : forall {A} (f : A * A -> A) k (l : list A),
+  length l = (2 ^ k)%nat -> length (fold_pairs f l) = (2 ^ (Nat.pred k))%nat.
+Proof.
+  intros A f k l H. destruct k.
+  - simpl in *. destruct l as [|a [|b r]]; simpl in *; try lia; try reflexivity.
+  - assert (H2 : length l = (2 * 2 ^ k)%nat) by (rewrite H; simpl; lia).
+    assert (0 < 2 ^ k)%nat by (apply Nat.neq_0_lt_0; apply Nat.pow_nonzero; lia).
+    destruct l as [|a [|b r]]; simpl in H2; try lia.
+    unfold fold_pairs. rewrite map_length. apply pairs_length. exact H2.
+Qed.
+
+Lemma sc_to_b32_length : forall s, length (sc_to_b32 s) = 32%nat.
+Proof. intros. unfold sc_to_b32. apply be_enc_length. Qed.
+
 Section BpppProofs.
 Variable P : Params.
 
@@ -479,6 +502,83 @@ Proof.
   rewrite map_nth. exact H.
 Qed.
 
+(* ------------------------------------------------------------------ prover: length, totality *)
+Lemma prove_loop_length : forall fuel tr rho_f mu_f gv hv nv lv cv acc pf ka kb,
+  length nv = (2 ^ ka)%nat -> length lv = (2 ^ kb)%nat ->
+  prove_loop P fuel tr rho_f mu_f gv hv nv lv cv acc = Some pf ->
+  length pf = (length acc + 65 * Nat.max ka kb + 64)%nat.
+Proof.
+  induction fuel; intros tr rho_f mu_f gv hv nv lv cv acc pf ka kb Hn Hl H.
+  - cbn [prove_loop] in H.
+    destruct ((length nv <=? 1)%nat && (length lv <=? 1)%nat) eqn:E; [|discriminate].
+    apply andb_true_iff in E. destruct E as [E1 E2]. apply Nat.leb_le in E1, E2.
+    assert (ka = 0%nat) by (destruct ka; [reflexivity|]; rewrite Hn in E1; simpl in E1; pose proof (Nat.pow_nonzero 2 ka); lia).
+    assert (kb = 0%nat) by (destruct kb; [reflexivity|]; rewrite Hl in E2; simpl in E2; pose proof (Nat.pow_nonzero 2 kb); lia).
+    subst. assert (Hpf : pf = acc ++ sc_to_b32 (hd 0 nv) ++ sc_to_b32 (hd 0 lv)) by congruence. rewrite Hpf, !app_length, !sc_to_b32_length. simpl. lia.
+  - cbn [prove_loop] in H.
+    destruct ((length nv <=? 1)%nat && (length lv <=? 1)%nat) eqn:E.
+    + apply andb_true_iff in E. destruct E as [E1 E2]. apply Nat.leb_le in E1, E2.
+      assert (ka = 0%nat) by (destruct ka; [reflexivity|]; rewrite Hn in E1; simpl in E1; pose proof (Nat.pow_nonzero 2 ka); lia).
+      assert (kb = 0%nat) by (destruct kb; [reflexivity|]; rewrite Hl in E2; simpl in E2; pose proof (Nat.pow_nonzero 2 kb); lia).
+      subst. assert (Hpf : pf = acc ++ sc_to_b32 (hd 0 nv) ++ sc_to_b32 (hd 0 lv)) by congruence. rewrite Hpf, !app_length, !sc_to_b32_length. simpl. lia.
+    + destruct (prove_round P tr rho_f mu_f gv hv nv lv cv) as [[pr [gv' hv']] [[nv' lv'] cv']] eqn:R.
+      unfold prove_round in R. injection R as Rpr _ _ Rn Rl _.
+      apply (IHfuel _ _ _ _ _ _ _ _ _ _ (Nat.pred ka) (Nat.pred kb)) in H.
+      * rewrite H, app_length. rewrite <- Rpr, serialize_points_length.
+        assert (ka <> 0 \/ kb <> 0)%nat.
+        { apply andb_false_iff in E. destruct E as [E|E]; apply Nat.leb_gt in E.
+          - left. intros ->. rewrite Hn in E. simpl in E. lia.
+          - right. intros ->. rewrite Hl in E. simpl in E. lia. }
+        lia.
+      * rewrite <- Rn. apply fold_pairs_length. exact Hn.
+      * rewrite <- Rl. apply fold_pairs_length. exact Hl.
+Qed.
+
+Lemma prove_loop_some : forall fuel tr rho_f mu_f gv hv nv lv cv acc ka kb,
+  length nv = (2 ^ ka)%nat -> length lv = (2 ^ kb)%nat -> (Nat.max ka kb <= fuel)%nat ->
+  exists pf, prove_loop P fuel tr rho_f mu_f gv hv nv lv cv acc = Some pf.
+Proof.
+  induction fuel; intros tr rho_f mu_f gv hv nv lv cv acc ka kb Hn Hl Hf.
+  - assert (ka = 0 /\ kb = 0)%nat as [-> ->] by lia. cbn [prove_loop]. rewrite Hn, Hl. simpl. eexists. reflexivity.
+  - cbn [prove_loop]. destruct ((length nv <=? 1)%nat && (length lv <=? 1)%nat) eqn:E; [eexists; reflexivity|].
+    destruct (prove_round P tr rho_f mu_f gv hv nv lv cv) as [[pr [gv' hv']] [[nv' lv'] cv']] eqn:R.
+    unfold prove_round in R. injection R as Rpr _ _ Rn Rl _.
+    apply (IHfuel _ _ _ _ _ _ _ _ _ (Nat.pred ka) (Nat.pred kb)).
+    + rewrite <- Rn. apply fold_pairs_length. exact Hn.
+    + rewrite <- Rl. apply fold_pairs_length. exact Hl.
+    + lia.
+Qed.
+
+Lemma pow2_nat : forall m, is_pow2 (Z.of_nat m) = true ->
+  exists k, m = (2 ^ k)%nat /\ Z.log2 (Z.of_nat m) = Z.of_nat k.
+Proof.
+  intros m H. apply is_pow2_spec in H. destruct H as [k [Hk E]]. exists (Z.to_nat k). split.
+  - apply Nat2Z.inj. rewrite E, Nat2Z.inj_pow, Z2Nat.id by assumption. reflexivity.
+  - rewrite E, Z.log2_pow2, Z2Nat.id by assumption. reflexivity.
+Qed.
+
+(* an honest proof has exactly the length the verifier insists on *)
+Lemma prove_length : forall tr rho gens nv lv cv pf,
+  is_pow2 (Z.of_nat (length nv)) = true -> is_pow2 (Z.of_nat (length lv)) = true ->
+  norm_prove P tr rho gens nv lv cv = Some pf ->
+  Z.of_nat (length pf) = 65 * Z.max (Z.log2 (Z.of_nat (length nv))) (Z.log2 (Z.of_nat (length lv))) + 64.
+Proof.
+  intros tr rho gens nv lv cv pf Hn Hl H.
+  apply pow2_nat in Hn, Hl. destruct Hn as [ka [Hn Lg]], Hl as [kb [Hl Lh]].
+  unfold norm_prove in H. apply (prove_loop_length _ _ _ _ _ _ _ _ _ _ _ ka kb Hn Hl) in H.
+  rewrite Lg, Lh, H. simpl length. lia.
+Qed.
+
+(* the fuel of the model prover always suffices on power-of-two lengths: it never abstains *)
+Lemma prove_total : forall tr rho gens nv lv cv,
+  is_pow2 (Z.of_nat (length nv)) = true -> is_pow2 (Z.of_nat (length lv)) = true ->
+  exists pf, norm_prove P tr rho gens nv lv cv = Some pf.
+Proof.
+  intros tr rho gens nv lv cv Hn Hl.
+  apply pow2_nat in Hn, Hl. destruct Hn as [ka [Hn _]], Hl as [kb [Hl _]].
+  unfold norm_prove. apply (prove_loop_some _ _ _ _ _ _ _ _ _ _ ka kb Hn Hl).
+  rewrite Hn, Hl. pose proof (Nat.pow_gt_lin_r 2 ka). pose proof (Nat.pow_gt_lin_r 2 kb). lia.
+Qed.
 End BpppProofs.
 
 (* ------------------------------------------------------------------ premises are satisfiable *)
@@ -505,6 +605,18 @@ Example toy_prove_verifies_1x1 :
   match norm_prove toy [] 5 g [3] [7] [9] with
   | Some pf => norm_verify toy 64 pf [] 5 g 1 [9] (norm_commit toy g [3] [7] [9] 25) = true
                /\ norm_verify toy 63 pf [] 5 g 1 [9] (norm_commit toy g [3] [7] [9] 25) = false
+  | None => False
+  end.
+Proof. vm_compute. split; reflexivity. Qed.
+
+Definition toy_gens8 : list point := map (fun k => pmul toy k (G toy)) [3; 5; 7; 11; 13; 17; 19; 23].
+(* two rounds, different lengths (4 x 2): exercises the s_g / s_h recursions of the verifier *)
+Example toy_prove_verifies_4x2 :
+  let nv := [3; 4; 30; 1] in let lv := [5; 6] in let cv := [2; 9] in let rho := 3 in let tr := [9] in
+  let g := firstn 6 toy_gens8 in
+  match norm_prove toy tr rho g nv lv cv with
+  | Some pf => norm_verify toy 100000 pf tr rho g 4 cv (norm_commit toy g nv lv cv (rho * rho)) = true
+               /\ norm_verify toy 100000 pf tr 4 g 4 cv (norm_commit toy g nv lv cv (rho * rho)) = false
   | None => False
   end.
 Proof. vm_compute. split; reflexivity. Qed.
